@@ -477,6 +477,8 @@ def programs(tier):
         lambda: [('diff', 1, 1, _res_mixed('a', 4, 1, 2)), ('blocksize', 2), ('diff', 2, 1, _res('b', 2, 1)), ('diff', 3, 1, _res('c', 2, 1)), ('diff', 1, 1, _res('d', 2, 1)), ('quit',)])
     add('v1 BITSHIFT with a running mean (version 1 keeps unshifted block means)', dict(version=1, nmean=1, blocksize=2),
         lambda: [('bitshift', 2), ('diff', 0, 2, _res('a', 2, 2)), ('diff', 0, 1, _res('b', 2, 1)), ('diff', 0, 1, _res('c', 2, 1)), ('quit',)])
+    add('v2 maxnlpc1 with DIFF3 / DIFF2 blocks (the history is max(maxnlpc, 3) samples)', dict(maxnlpc=1, nmean=0, blocksize=2),
+        lambda: [('diff', 1, 2, _res('a', 2, 2)), ('diff', 3, 1, _res('b', 2, 1)), ('diff', 2, 1, _res('c', 2, 1)), ('quit',)])
     add('v2 AU1 with a ZERO block (mu-law zero is code 0xFF)', dict(ftype=R.TYPE_AU1, nmean=0, blocksize=2),
         lambda: [('diff', 0, 2, _res('a', 2, 2)), ('zero',), ('diff', 1, 1, _res('b', 2, 1)), ('quit',)], itemsize=2)
     add('v2 AU2 raw with a ZERO block after BITSHIFT', dict(ftype=R.TYPE_AU2, nmean=0, blocksize=2),
